@@ -140,6 +140,13 @@ type Runner struct {
 	nCreate int
 }
 
+// MarkPartial records that a partial directory read was issued on slot h although this
+// runner did not execute it (lock-step twins where one side refused the call).
+func (r *Runner) MarkPartial(h int) { r.markPartial(h, true) }
+
+// ClearPartial forgets the mark (the slot got a new handle, or none, without this runner executing the open).
+func (r *Runner) ClearPartial(h int) { delete(r.partial, h) }
+
 func (r *Runner) markPartial(h int, yes bool) {
 	if !yes {
 		return
